@@ -24,11 +24,42 @@ def main():
         return 2
     ctx = Ctx(pid, a.tier, seed, mod.LEVEL)
     prelude.seed_all(seed)
+    # wall-clock guard: a change to the library may make a check pathologically slow (state leaking
+    # between loads, ...); a check must still end and report what it found
+    import signal
+
+    limit = int(os.environ.get("VERIF_TIMEOUT", "1500" if a.tier == "quick" else "5400"))
+
+    class _Timeout(Exception):
+        pass
+
+    def _alarm(signum, frame):
+        raise _Timeout()
+
+    signal.signal(signal.SIGALRM, _alarm)
+    signal.alarm(limit)
     try:
         if a.replay:
             mod.replay(ctx, a.replay)
         else:
             mod.run(ctx)
+        signal.alarm(0)
+    except _Timeout:
+        signal.alarm(0)
+        for hook in list(ctx.flush_hooks):
+            try:
+                hook()
+            except Exception:
+                traceback.print_exc()
+        ctx.notes.append("stopped by the wall-clock guard after %d s" % limit)
+        if ctx.violations:
+            print("TIMEOUT", pid, "after %d s: reporting the violations found so far" % limit, flush=True)
+            return ctx.finish()
+        print("MACHINERY-FAILURE", pid, "wall-clock guard (%d s) expired without a verdict" % limit, flush=True)
+        import shutil
+
+        shutil.rmtree(ctx.work, ignore_errors=True)
+        return 2
     except MachineryError as e:
         print("MACHINERY-FAILURE", pid, e, flush=True)
         import shutil
